@@ -296,6 +296,14 @@ func (s *gSys) checkQueries() error {
 			}
 		}
 	}
+	if pendingBefore {
+		// a deferred add is pending: what the degree-based queries answer now is not judged (the
+		// documented protocol has not been completed) - but they are queries, asking them must
+		// not influence what is answered once the protocol has been completed
+		_ = g.GetRoots()
+		_ = g.GetLeaves()
+		_, _ = g.TopologicalSort()
+	}
 	// acyclicity (this also completes any pending deferred adds)
 	acy := g.IsAcyclic()
 	s.pending = false
@@ -311,6 +319,12 @@ func (s *gSys) checkQueries() error {
 					return fmt.Errorf("depth(%d)=%v, reference %d; model: %s", v, n, m.Depth(v), m)
 				}
 			}
+		}
+	}
+	if pendingBefore {
+		// the pending adds have been completed by the cycle check above: now everything is compared
+		if err := s.checkQueries(); err != nil {
+			return fmt.Errorf("[after queries were asked while a deferred add was pending, then completed] %w", err)
 		}
 	}
 	return nil
